@@ -302,7 +302,10 @@ def main():
         k = next((k for k in known if k.get("clause") == kv.get("clause") and k.get("cls", kv.get("cls")) == kv.get("cls")), None)
         if k:
             reproduced.setdefault(k["id"], (k, line))
-            tainted.setdefault(hkey, step_of(kv))
+            # a residue of the package variable alone changes no committed state: only a hit
+            # that shows committed state affected makes later hits of that history consequences
+            if kv.get("clause") != "globalResidue":
+                tainted.setdefault(hkey, step_of(kv))
         elif hkey in tainted and step_of(kv) >= tainted[hkey]:
             ntainted += 1
         else:
@@ -319,17 +322,47 @@ def main():
         # broken proof/obligation/correspondence: the monitors already ran on every implementation
         # state of these runs; widen the search before giving up on a concrete failing input
         found = None
-        if mism and tier == "quick":
-            pass
-        what = {"kind": "broken", "broken": broken[:10], "mismatches": [l for _, _, l in mism[:10]]}
+        search = []
+        if mism and os.path.exists(getattr(ctx, "drive", "/nonexistent")):
+            # the correspondence broke but no monitor fired on these runs: look for a concrete
+            # failing history with other seeds and longer histories of the same profiles
+            for rnd, (eh, es) in enumerate([(24, 500), (48, 900)] if tier == "quick" else [(96, 1500)]):
+                for profile in fp["profiles"]:
+                    try:
+                        tr2, mo2 = run_traces(ctx, profile, seed + 7919 * (rnd + 1), eh, es)
+                    except Exception as ex:
+                        search.append({"profile": profile, "error": str(ex)[:200]}); continue
+                    search.append({"profile": profile, "seed": seed + 7919 * (rnd + 1), "histories": eh, "steps_per_history": es})
+                    seen_known = {}
+                    for line in open(mo2):
+                        m = LINE.match(line)
+                        if not m or m.group(1) != "MONITOR": continue
+                        kv2 = parse_kv(m.group(2))
+                        if kv2.get("prop") != prop: continue
+                        hk = kv2.get("hist")
+                        if any(k.get("clause") == kv2.get("clause") and k.get("cls", kv2.get("cls")) == kv2.get("cls") for k in known):
+                            seen_known.setdefault(hk, True); continue
+                        if hk in seen_known: continue
+                        found = (tr2, kv2, line.strip()[:600]); break
+                    if found: break
+                if found: break
+        if found:
+            tr2, kv2, line2 = found
+            path = write_replay(f"{prop}-{kv2.get('hist')}-{kv2.get('i')}.json", tr2, kv2,
+                                {"kind": "monitor-after-broken-correspondence", "monitor": line2, "broken": broken[:10],
+                                 "mismatches": [l for _, _, l in mism[:10]], "search": search})
+            print(f"VIOLATION property={prop} replay={path}")
+            exit_code = 1
+        what = {"kind": "broken", "broken": broken[:10], "mismatches": [l for _, _, l in mism[:10]], "search_for_failing_input": search}
         if mism:
             tr, kv, line = mism[0]
             path = write_replay(f"{prop}-broken.json", tr, kv, what)
         else:
             path = os.path.join(VERIF, "replays", f"{prop}-broken.json")
             json.dump(dict(what, property=prop), open(path, "w"), indent=1)
-        print(f"VIOLATION property={prop} replay={path} no-failing-input-found")
-        exit_code = 1
+        if not found:
+            print(f"VIOLATION property={prop} replay={path} no-failing-input-found")
+            exit_code = 1
     # evidence
     obligations = len(my_thms) + len(opcount)
     ev = {
